@@ -62,11 +62,13 @@ theorem remove_listener_forgets_holds : remove_listener_forgets = true := by dec
 /-- `ServiceBrowser.cancel()`: sentinel, `_async_cancel` on the loop, `join()` -/
 theorem thread_cancel_joins_holds : (thread_cancel_signals && thread_cancel_joins) = true := by decide
 theorem thread_cancel_schedules_async_cancel_holds : thread_cancel_schedules_async_cancel = true := by decide
-/-- … with no test for "am I that thread" — the unrepaired state of finding D30 (with notes/fixes/D30.diff this lemma fails and the
-theorems that carry D30 as a hypothesis can be stated outright) -/
-theorem thread_cancel_does_not_guard_self_join : thread_cancel_guards_self_join = false := by decide
-/-- `ServiceBrowser.run()` stops at the sentinel only — the unrepaired state of finding D31 -/
-theorem thread_run_stops_at_sentinel_only (z b : Bool) : thread_run_stops false z b = false := by simp [thread_run_stops]
+/-- `ServiceBrowser.run()` stops at the sentinel on every tree: `if event is None …: return` -/
+theorem thread_run_stops_at_sentinel (z b : Bool) : thread_run_stops true z b = true := by simp [thread_run_stops]
+/-! (Whether `cancel()` tests "am I that thread" — `thread_cancel_guards_self_join` — and whether `run()` also looks at a `done`
+flag — `thread_run_stops false …` — differ between the tree with and without the repairs of findings D30 / D31
+(`notes/fixes/D30.diff`, `D31.diff`); no lemma here fixes either value: the C17 theorems carry them as hypotheses, so the same
+proofs check on both trees.  Once the repairs are in `/repo`, add `thread_cancel_guards_self_join = true` and
+`thread_run_stops false true b = true` here and discharge those hypotheses (notes/agents/C17.md, "flip").) -/
 /-- the four calls of `Zeroconf.close()` come in the order of the model's stages -/
 theorem sync_order_holds : (sync_close_unregisters_before_done && sync_close_done_before_engine_close
     && sync_close_engine_close_before_threads && async_close_sets_done_first) = true := by decide
